@@ -598,3 +598,16 @@ Proof.
     + now apply Forall_rev.
   - rewrite map_rev. etransitivity; [symmetry; apply Permutation_rev|exact HJ3].
 Qed.
+
+(* the produced list, in stdlib terms: strictly decreasing = the reverse is Sorted lt *)
+Lemma dec_tuples_spec m t x :
+  In x (dec_tuples m t 0) <->
+  length x = t /\ Sorted lt (rev x) /\ Forall (fun i => i < m) x.
+Proof.
+  rewrite dec_tuples_in, incr_from_sorted. split.
+  - intros [H1 [[H2 _] H3]]. auto.
+  - intros [H1 [H2 H3]]. repeat split; try assumption. apply Forall_forall. intros; lia.
+Qed.
+
+Lemma dec_tuples_nodup0 m t : NoDup (dec_tuples m t 0).
+Proof. apply dec_tuples_nodup. Qed.
